@@ -501,6 +501,21 @@ class RG:
         if op == "sign":
             return N("sign", (self.realify(S(), smooth),), None, (), {}, real=True)
         if op == "conditional":
+            if rng.random() < 0.25:
+                # a guard: the branch that is NOT taken has no value at all (division by an exact zero, logarithm of an
+                # exact zero), the way sin(x)/x is guarded at x == 0
+                a = self.realify(self.scalar(min(depth - 1, 1), dlev=dlev, smooth=dlev > 0), dlev > 0)
+                s_ = self.realify(S(0), smooth)
+                zero = m_add("sub", s_, s_)
+                bad = m_div(S(0), zero) if rng.random() < 0.6 else m_un("fn", zero, "ln")
+                good = S()
+                if rng.random() < 0.5:
+                    g_ = m_cond(N("cmp", (a, m_add("add", a, lit(1))), "lt", (), {}, kind="cond"), good, bad)
+                    g_.a = "guard:true"
+                else:
+                    g_ = m_cond(N("cmp", (a, m_add("add", a, lit(1))), "gt", (), {}, kind="cond"), bad, good)
+                    g_.a = "guard:false"
+                return g_
             return m_cond(self.cond(depth - 1, dlev), S(), S(rng.choice([1, 2])))
         if op == "bessel":
             kind = rng.choice("JYIK")
